@@ -65,7 +65,12 @@ def c10Step (st : C10State) (req : List Sx) : C10State × String :=
         | none =>
           let v := validateB out.ren P R e out.entry
           let why := if v then "" else s!" failing={(firstFailing (checks out.ren P R e out.entry)).getD "?"}"
-          (st, s!"equal entry={out.entry} validate={v}{why} kept-fns={out.marks.fns.length} kept-types={out.marks.types.length}")
+          -- T2 per instance: shaking the shaken program returns it unchanged, with the identity renaming
+          let idem := match treeShake out.prog out.entry with
+            | some o2 => (bytecodeDiff o2.prog out.prog).isNone && o2.entry == out.entry &&
+                o2.ren.fn.all (fun p => p.1 == p.2) && o2.ren.type.all (fun p => p.1 == p.2)
+            | none => false
+          (st, s!"equal entry={out.entry} validate={v}{why} idempotent={idem} kept-fns={out.marks.fns.length} kept-types={out.marks.types.length}")
     | _, _, _ => (st, "bad-request")
   | [.list (.atom "inject" :: f :: caps)] =>
     -- `Program::inject_function_captures(f, caps)` on slot A (model: `injectCaptures`)
